@@ -41,7 +41,7 @@ theorem no_false_skip (cfg : Cfg) (ops : List Op) (s : State)
     (hrun : TS.run (step? cfg) init ops = some s) (hnt : NoTruncate ops)
     (hcov : AtCrashes cfg (CrashCovered cfg) init ops) :
     ∀ e ∈ s.skipped, Covers s.acked e.ino (e.off, e.data) :=
-  (inv_run (inv_init cfg) hnt hcov hrun).skipped
+  fun e he => coversG_all.1 ((inv_run (inv_init cfg) hnt hcov hrun).skipped e he trivial)
 
 /-! #### a concrete history satisfying the hypotheses (non-vacuity)
 
